@@ -149,8 +149,16 @@ Definition nbr_partial_fit (s : nbr) (ds : list A) (rs : list R) (cx : mat (R:=R
   | _ => s1
   end.
 
+(* _Neighbors._uptake_new_arm: lp.add_arm, and a binarizer arriving with the arm marks the stored
+   (already binary) rewards as converted *)
+Definition lp_mark_converted (l : lp) (bz : option (A -> R -> R)) : lp :=
+  match l, bz with
+  | LCf c, Some _ => match c_kind c with KThompson => LCf (set_ctxbin c true) | _ => l end
+  | _, _ => l
+  end.
+
 Definition nbr_add_arm (s : nbr) (a : A) bz : nbr :=
-  mkNbr (n_kind s) (n_metric s) (n_nnprob s) (n_kf_newarm0 s) (n_arms s ++ [a]) (lp_add_arm (n_lp s) a bz)
+  mkNbr (n_kind s) (n_metric s) (n_nnprob s) (n_kf_newarm0 s) (n_arms s ++ [a]) (lp_mark_converted (lp_add_arm (n_lp s) a bz) bz)
         (aset aeqb (n_exp s) a (if n_kf_newarm0 s then Some (zero N) else None))
         (n_ds s) (n_rs s) (n_cx s) (n_planes s) (n_tables s).
 Definition nbr_remove_arm (s : nbr) (a : A) : nbr :=
